@@ -102,9 +102,14 @@ func Mul(x, y Number) Number {
 
 // Inv returns the dual inverse of d.
 func Inv(d Number) Number {
+	// The inverse of r+d*eps is inv(r) - inv(r)*d*inv(r)*eps; r and d do not commute
+	// in general. inv(r) is spelled out here because quat.Inv returns zero for an
+	// infinite r, for which the dual part is not defined.
+	a := quat.Abs(d.Real)
+	ri := quat.Scale(1/(a*a), quat.Conj(d.Real))
 	return Number{
 		Real: quat.Inv(d.Real),
-		Dual: quat.Scale(-1, quat.Mul(d.Dual, quat.Inv(quat.Mul(d.Real, d.Real)))),
+		Dual: quat.Scale(-1, quat.Mul(ri, quat.Mul(d.Dual, ri))),
 	}
 }
 
